@@ -32,61 +32,74 @@ Proof.
 Qed.
 
 Definition mono_stmt (n : node) : Prop :=
-  forall st cs st', tr_node n st = Ok (cs, st') -> t_stable st' = true -> t_stable st = true.
+  forall st cs st', tr_node n st = Ok (cs, st') -> t_stable st' = t_stable st.
 
 Lemma mono_list_of : forall B, Forall mono_stmt B ->
-  forall st cs st', tr_nodes B st = Ok (cs, st') -> t_stable st' = true -> t_stable st = true.
+  forall st cs st', tr_nodes B st = Ok (cs, st') -> t_stable st' = t_stable st.
 Proof.
-  induction 1 as [|x B Hx HB IH]; intros st cs st' H HS.
+  induction 1 as [|x B Hx HB IH]; intros st cs st' H.
   - cbn in H. inversion H; subst; auto.
   - rewrite tr_nodes_cons in H.
     destruct (tr_node x st) as [[c1 st1]|] eqn:E1; cbn in H; [|discriminate].
-    destruct (tr_nodes B st1) as [[c2 st2]|] eqn:E2; cbn in H; [|discriminate]. inversion H; subst. eauto.
+    destruct (tr_nodes B st1) as [[c2 st2]|] eqn:E2; cbn in H; [|discriminate]. inversion H; subst.
+    rewrite (IH _ _ _ E2). eauto.
 Qed.
 
 Lemma mono_node : forall n, mono_stmt n.
 Proof.
-  induction n as [vs dur|body c IHb|body len IHb] using node_ind2; intros st cs st' H HS.
+  induction n as [vs dur|body c IHb|body len IHb] using node_ind2; intros st cs st' H.
   - rewrite tr_node_hold in H. destruct (tr_hold_chs 0 vs st) as [[c1 st1]|] eqn:E; cbn in H; [|discriminate].
-    inversion H; subst. rewrite <- (hold_stable _ _ _ _ _ E). exact HS.
+    inversion H; subst. apply (hold_stable _ _ _ _ _ E).
   - pose proof (mono_list_of body IHb) as HL. rewrite tr_node_rep in H. cbv zeta in H.
     destruct (tr_nodes body (with_label st (t_label st + 1))) as [[cs1 st1]|] eqn:E1; cbn [bind] in H; [|discriminate].
-    destruct (set_eqb _ _).
-    + inversion H; subst. cbn in HS. apply andb_prop in HS as [HS _]. apply (HL _ _ _ E1 HS).
+    destruct (set_eqb _ _ && entry_unchanged _ _).
+    + inversion H; subst. apply (HL _ _ _ E1).
     + destruct (0 <? c - 1).
       * destruct (tr_nodes body st1) as [[cs2 st2]|] eqn:E2; cbn [bind] in H; [|discriminate]. inversion H; subst.
-        apply (HL _ _ _ E1). apply (HL _ _ _ E2 HS).
-      * inversion H; subst. apply (HL _ _ _ E1 HS).
+        rewrite (HL _ _ _ E2). apply (HL _ _ _ E1).
+      * inversion H; subst. apply (HL _ _ _ E1).
   - pose proof (mono_list_of body IHb) as HL. rewrite tr_node_iter in H. cbv zeta in H.
     destruct (tr_nodes body (with_iters st (t_iters st ++ [0]))) as [[cs1 st1]|] eqn:E1; cbn [bind] in H; [|discriminate].
     destruct (1 <? len).
     + match type of H with context [tr_nodes body ?s] => destruct (tr_nodes body s) as [[cs2 st2]|] eqn:E2 end; cbn [bind] in H; [|discriminate].
-      inversion H; subst. cbn in HS. apply (HL _ _ _ E1). apply (HL _ _ _ E2 HS).
-    + inversion H; subst. cbn in HS. apply (HL _ _ _ E1 HS).
+      inversion H; subst. cbn. rewrite (HL _ _ _ E2). cbn. apply (HL _ _ _ E1).
+    + inversion H; subst. cbn. apply (HL _ _ _ E1).
 Qed.
 
-Lemma mono_nodes : forall B st cs st', tr_nodes B st = Ok (cs, st') -> t_stable st' = true -> t_stable st = true.
+Lemma stable_nodes : forall B st cs st', tr_nodes B st = Ok (cs, st') -> t_stable st' = t_stable st.
 Proof. intros B. apply mono_list_of. apply Forall_forall. intros; apply mono_node. Qed.
 
-(* syntactic identity *)
-Lemma q_same_eq : forall a b, q_same a b = true -> a = b.
+Lemma mono_nodes : forall B st cs st', tr_nodes B st = Ok (cs, st') -> t_stable st' = true -> t_stable st = true.
+Proof. intros B st cs st' H HS. rewrite <- (stable_nodes _ _ _ _ H). exact HS. Qed.
+
+Lemma rep_stable_true : forall prog, rep_stable prog = true.
+Proof. intros prog. unfold rep_stable. destruct (tr_nodes prog t0) as [[cs st]|] eqn:E; auto. now rewrite (stable_nodes _ _ _ _ E). Qed.
+
+(* entry_unchanged: what it gives for lookups *)
+Lemma alookup_In {K V} (eqb : K -> K -> bool) : forall k (l : list (K * V)) v,
+  alookup eqb k l = Some v -> exists k', eqb k k' = true /\ In (k', v) l.
 Proof.
-  intros [n d] [n' d'] H. unfold q_same in H. cbn in H. apply andb_prop in H as [H1 H2].
-  apply Z.eqb_eq in H1. apply Pos.eqb_eq in H2. subst. reflexivity.
+  induction l as [|[k1 v1] l IH]; intros v H; cbn in H; [discriminate|].
+  destruct (eqb k k1) eqn:E.
+  - inversion H; subst. exists k1. split; auto. left; auto.
+  - destruct (IH v H) as (k' & E' & I'). exists k'. split; auto. right; auto.
 Qed.
-Lemma cmd_same_eq : forall a b, cmd_same a b = true -> a = b.
+
+Lemma entry_unchanged_spec : forall st st1, entry_unchanged st st1 = true ->
+  (forall ch k, act st ch = Some k -> act st1 ch = Some k) /\
+  (forall ch v, pl st ch = Some v -> exists v1, pl st1 ch = Some v1 /\ (v1 == v)%Q) /\
+  (forall ck b olds, dp st ck = Some (b, olds) -> exists b1, dp st1 ck = Some (b1, olds) /\ (b1 == b)%Q).
 Proof.
-  intros [c v k|c v k|d|i n|i] [c' v' k'|c' v' k'|d'|i' n'|i'] H; cbn in H; try discriminate.
-  - apply andb_prop in H as [H H3]. apply andb_prop in H as [H1 H2].
-    apply Nat.eqb_eq in H1. apply q_same_eq in H2. apply key_eqb_spec in H3. subst. reflexivity.
-  - apply andb_prop in H as [H H3]. apply andb_prop in H as [H1 H2].
-    apply Nat.eqb_eq in H1. apply q_same_eq in H2. apply key_eqb_spec in H3. subst. reflexivity.
-  - apply q_same_eq in H. subst. reflexivity.
-  - apply andb_prop in H as [H1 H2]. apply Z.eqb_eq in H1, H2. subst. reflexivity.
-  - apply Z.eqb_eq in H. subst. reflexivity.
-Qed.
-Lemma cmds_same_eq : forall a b, cmds_same a b = true -> a = b.
-Proof.
-  induction a as [|x a IH]; intros [|y b] H; cbn in H; try discriminate; auto.
-  apply andb_prop in H as [H1 H2]. apply cmd_same_eq in H1. apply IH in H2. subst. reflexivity.
+  intros st st1 H. unfold entry_unchanged in H. apply andb_prop in H as [H H3]. apply andb_prop in H as [H1 H2].
+  rewrite forallb_forall in H1, H2, H3. split; [|split].
+  - intros ch k Hk. destruct (alookup_In _ _ _ _ Hk) as (ch' & E & HIn). apply Nat.eqb_eq in E. subst ch'.
+    specialize (H1 _ HIn). cbn in H1. unfold act. destruct (alookup Nat.eqb ch (t_active st1)) as [k'|]; cbn in H1; [|discriminate].
+    apply key_eqb_spec in H1. now subst.
+  - intros ch v Hv. destruct (alookup_In _ _ _ _ Hv) as (ch' & E & HIn). apply Nat.eqb_eq in E. subst ch'.
+    specialize (H2 _ HIn). cbn in H2. unfold pl. destruct (alookup Nat.eqb ch (t_plain st1)) as [v'|]; cbn in H2; [|discriminate].
+    exists v'. split; auto. now apply Qeq_bool_iff.
+  - intros ck b olds Hd. destruct (alookup_In _ _ _ _ Hd) as (ck' & E & HIn). apply ck_eqb_spec in E. subst ck'.
+    specialize (H3 _ HIn). cbn in H3. unfold dp. destruct (alookup ck_eqb ck (t_deps st1)) as [[b1 o1]|]; [|discriminate].
+    unfold depstate_eqb in H3. cbn in H3. apply andb_prop in H3 as [X Y]. apply Qeq_bool_iff in X.
+    unfold zlist_eqb in Y. destruct (list_eq_dec Z.eq_dec o1 olds); [|discriminate]. subst. eauto.
 Qed.
